@@ -123,6 +123,22 @@ def r10_2(run):
         run.ob("R10.2", loc(mod, st), fi.short, construct, ok,
                why if ok else f"a gradient can be stored on {recv} although it is (or was requested to be) constant")
     run.count("value stores to Tensor._grad", n)
+    # the gradient a *view* reports is derived on demand from its base and cached in _view_grad: same obligation
+    m = 0
+    for fi, mod, st, t, val, kind in facts(run).attribute_stores():
+        if t.attr != "_view_grad" or fi is None or is_none_value(val) or kind == "del":
+            continue
+        m += 1
+        recv = norm(t.value)
+        cfg = build_cfg(run, fi, switch_assumptions(fi, track=True))
+        node = cfg.node_for(st)
+        if node is None or not cfg.reachable(node):
+            continue
+        ok = _const_guarded(run, fi, cfg, node, recv)
+        run.ob("R10.2", loc(mod, st), fi.short, f"value store to {recv}._view_grad", ok,
+               f"dominated by the non-constant edge of a `{recv}._constant` test" if ok else
+               f"a view made with constant=True of a non-constant base derives a gradient from its base: a constant tensor reports a .grad")
+    run.count("value stores to Tensor._view_grad", m)
 
 
 def r10_3(run):
